@@ -87,6 +87,7 @@ type Flow struct {
 }
 
 type Exec struct {
+	closureIdx     []*Term // indices of the callee iterations whose callback literal is being executed (innermost last)
 	stmtHintActive map[int]int
 	w              *World
 	fi             *FuncInfo
@@ -582,6 +583,15 @@ func (ex *Exec) eval(st *State, e ast.Expr) *Val {
 		x := ex.eval(st, e.X)
 		tt := ex.info.TypeOf(e.Type)
 		ex.safeN++
+		if it, ok := tt.Underlying().(*types.Interface); ok {
+			// assertion to an interface type: the value is non-nil and its dynamic type is one of the module's implementers
+			goal := tFalse
+			for _, impl := range ex.w.implementers(it) {
+				goal = tOr(goal, tEq(dynType(x.T), ex.w.typeTag(impl)))
+			}
+			ex.oblige(st, "safe", fmt.Sprintf("safe.typeassert.%d", ex.safeN), tAnd(tNot(tEq(x.T, intLit(0))), goal), ex.pos(e)+": type assertion to interface must succeed")
+			return tv(x.T, tt)
+		}
 		ex.oblige(st, "safe", fmt.Sprintf("safe.typeassert.%d", ex.safeN), tEq(dynType(x.T), ex.w.typeTag(tt)), ex.pos(e)+": type assertion must succeed")
 		return ex.unbox(x, tt)
 	}
